@@ -76,10 +76,12 @@ func runC03(w *mc.Worker) {
 	if w.Tier == "quick" {
 		stage("send-w2", "fixed sends through $amt, source+destination weight <= 2, depth <= 1; balances {0,1,3,6,-2}^2; amounts {0,1,2,4,7}", []string{"fixed"}, 2, 1, 1, balQ, amtQ)
 		stage("lit-w1", "fixed sends with literal amounts 0 and 3, source+destination weight <= 1", []string{"lit:0", "lit:3"}, 1, 1, 1, balQ, amtQ[:1])
+		stage("numvar-w1", "fixed sends of [USD $n] (a monetary literal whose amount is a number variable; the same parsed script runs with every value), source+destination weight <= 1; amounts {0,1,2,4,7,2^64}", []string{"numvar"}, 1, 1, 1, balQ, append(append([]*big.Int{}, amtQ...), pow2Dom()[5]))
 		seq("seq-L2", "all statement sequences of length <= 2 over the 28-statement alphabet (<= 1 deviation) x 30 sheets, statements attributed through prefix runs", 2, 1, sheetsQ)
 		stage("send-w3", "fixed sends through $amt, source+destination weight <= 3, depth <= 2; balances {0,1,3,6,-2}^2; amounts {0,1,2,4,7}", []string{"fixed"}, 3, 2, 2, balQ, amtQ)
 	} else {
 		stage("send-w3-H", "fixed sends through $amt, source+destination weight <= 3, depth <= 2; balances {0,1,3,6,-2,H}^2; amounts {0,1,2,4,7,H,H+3}", []string{"fixed"}, 3, 2, 2, append(balQ, H), append(amtQ, H, new(big.Int).Add(H, bi(3))))
+		stage("numvar-w2", "fixed sends of [USD $n] (a monetary literal whose amount is a number variable; the same parsed script runs with every value), source+destination weight <= 2; amounts {0,1,2,4,7,2^64}", []string{"numvar"}, 2, 1, 1, balQ, append(append([]*big.Int{}, amtQ...), pow2Dom()[5]))
 		stage("lit-w2", "fixed sends with literal amounts 0, 3 and 9223372036854775807, weight <= 2", []string{"lit:0", "lit:3", "lit:9223372036854775807"}, 2, 1, 1, append(balQ, H), amtQ[:1])
 		seq("seq-L3", "all statement sequences of length <= 3 over the 28-statement alphabet (<= 1 deviation) x 30 sheets, statements attributed through prefix runs", 3, 1, sheetsQ)
 		stage("send-w4", "fixed sends through $amt, source+destination weight <= 4, depth <= 2; balances {0,1,3,6,-2}^2; amounts {0,1,2,4,7}", []string{"fixed"}, 4, 2, 2, balQ, amtQ)
